@@ -51,41 +51,14 @@ LinearizableOrK1 == AllDone => (Linearizable \/ K1Shape)
 StrictLinearizable == AllDone => Linearizable
 NoResidue == AllDone => mark = {}
 
-(***************************************************************************)
-(* Process death with BOTH calls in flight (C09 / C10 on the model).       *)
-(* CrashSpec adds one environment action: at any moment all threads stop   *)
-(* (pc frozen, lock state lost); what is left on disk is the abstract      *)
-(* store of that moment.  The invariants say what a reopened store may     *)
-(* show: permanent files complete (trivially, renames are atomic in the    *)
-(* model), every pid OTHER than the ones in flight exactly as before, and  *)
-(* an interrupted pid never bound to a different cid than its call (or its *)
-(* earlier binding) named.                                                 *)
-(***************************************************************************)
-VARIABLE crashed
-CrashInit == Init /\ crashed = FALSE
-CrashNext == \/ (~crashed /\ Next /\ UNCHANGED crashed)
-             \/ (~crashed /\ crashed' = TRUE /\ UNCHANGED vars)
-CrashSpec == CrashInit /\ [][CrashNext]_<<vars, crashed>>
+\* Readers take no lock and are not promised linearizability; what C09 / C10 promise them is
+\* that they are served the COMPLETE RIGHT bytes or an error, never something else
+ReaderSafe == \A th \in Thread :
+   (Job[th].op = "retrieve" /\ result[th] = "ok") =>
+      rdata[th] \in {Start.pref[Job[th].pid]}
+                    \cup {Job[u].c : u \in {w \in Thread : Job[w].pid = Job[th].pid
+                                                            /\ Job[w].op \in {"store", "tag"}}}
 
-InFlightPids == {Job[th].pid : th \in Thread} \ {"-"}
-Touched(q) == q \in InFlightPids
-CountOf(q, cc) == Cardinality({k \in 1..Len(cref[cc].pids) : cref[cc].pids[k] = q})
-StartCount(q, cc) == Cardinality({k \in 1..Len(Start.cref[cc].pids) : Start.cref[cc].pids[k] = q})
-CrashOthersIntact ==
-  crashed => \A q \in Pid : ~Touched(q) =>
-     /\ pref[q] = Start.pref[q]
-     /\ doc[q] = Start.doc[q]
-     /\ \A cc \in Cid : CountOf(q, cc) = StartCount(q, cc)
-     \* an object another pid references is never removed by a crash ALONE: it is removed
-     \* only if some in-flight call is a deleter of that content (K1 aside)
-     /\ (Start.pref[q] \in Cid /\ Start.obj[Start.pref[q]] = "ok"
-         /\ ~\E th \in Thread : Job[th].op \in {"delete", "dii"})
-          => obj[Start.pref[q]] = "ok"
-CrashNoWrongBinding ==
-  crashed => \A th \in Thread : Job[th].pid \in Pid =>
-     pref[Job[th].pid] \in {None, Start.pref[Job[th].pid]}
-                        \cup {Job[u].c : u \in {w \in Thread : Job[w].pid = Job[th].pid
-                                                                /\ Job[w].op \in {"store", "tag"}}}
 \* the event history variable does not influence behaviour: hide it from the fingerprint
-ViewNoEv == <<pc, obj, pref, cref, doc, mark, keep, locked, waitq, woken, result, rdata, stack, vtb_, vid_, vtb, vid, vp_, vc_t, va_, vb_, vout, vmade, vrp, vrl_, vp_s, vc_s, vx_, vc, vb_d, vx_d, vp_d, vc_, vcls, vrl, va, vb, vx_de, vdels, vdocs, vf_, vp_de, vtodo, vkeepl, vmarked, ve, vp_p, vf_p, vver, vp_g, vf_g, vx_g, vp_del, vf, vx, vp>>
+ViewNoEv == <<pc, obj, pref, cref, doc, mark, keep, locked, waitq, woken, result, rdata, stack, vtb_, vid_, vtb, vid, vp_, vc_t, va_, vb_, vout, vmade, vrp, vrl_, vp_s, vc_s, vx_, vc, vb_d, vx_d, vp_d, vc_, vcls, vrl_d, va_d, vb_de, vx_de, vdels, vdocs, vf_, vp_de, vtodo, vkeepl, vmarked, ve, vp_p, vf_p, vver, vp_g, vf_g, vx_g, vp_del, vf, vx_del, vp_delm, vp, vc_r, vrl, va, vb, vx>>
 =============================================================================
